@@ -16,6 +16,7 @@ import (
 	"math/big"
 	"path/filepath"
 	"strings"
+	"unicode"
 
 	"verif/harness/common"
 )
@@ -26,6 +27,7 @@ type VParam struct {
 	Elem    string   `json:"elem,omitempty"` // element type string when Typ is a slice type literal
 	IsSlice bool     `json:"is_slice,omitempty"`
 	Deps    []string `json:"deps,omitempty"` // paths of the packages named in Typ
+	IsStr   bool     `json:"is_string,omitempty"` // the underlying type is the basic type string
 
 	unexportedType bool              // names a non-exported type, field or method of some package
 	internalType   bool              // names a type of an internal/ or vendor/ package
@@ -38,6 +40,59 @@ type VMethod struct {
 	Variadic bool     `json:"variadic"`
 	Params   []VParam `json:"params"`
 	Results  []VParam `json:"results"`
+}
+
+// VNum is the real or imaginary part of an untyped complex constant.
+type VNum struct {
+	Kind string `json:"kind"` // int | float
+	Int  string `json:"int,omitempty"`
+	Num  string `json:"num,omitempty"`
+	Den  string `json:"den,omitempty"`
+	Prec uint   `json:"prec,omitempty"`
+}
+
+func (n *VNum) sexp() string {
+	if n.Kind == "int" {
+		return common.L("int", n.Int)
+	}
+	return common.L("flt", n.Num, n.Den, fmt.Sprint(n.Prec))
+}
+
+// exact renders the value the part must be bound to ("INT:n" | "FLOAT:num/den").
+func (n *VNum) exact() string {
+	if n.Kind == "int" {
+		return "INT:" + n.Int
+	}
+	return "FLOAT:" + n.Num + "/" + n.Den
+}
+
+// rounded: fixConst's float printing does not preserve this part (F18-1).
+func (n *VNum) rounded() bool {
+	return n.Kind == "float" && (!isPow2(n.Den) || n.Prec != 0)
+}
+
+// numView renders an Int or Float constant (nil: neither).
+func numView(v constant.Value) *VNum {
+	switch v.Kind() {
+	case constant.Int:
+		return &VNum{Kind: "int", Int: v.ExactString()}
+	case constant.Float:
+		n := &VNum{Kind: "float"}
+		var r *big.Rat
+		switch x := constant.Val(v).(type) {
+		case *big.Rat:
+			r = x
+		case *big.Float:
+			r, _ = x.Rat(nil)
+			n.Prec = x.Prec()
+		}
+		if r == nil {
+			return nil
+		}
+		n.Num, n.Den = r.Num().String(), r.Denom().String()
+		return n
+	}
+	return nil
 }
 
 type VObj struct {
@@ -53,6 +108,8 @@ type VObj struct {
 	Prec    uint   `json:"prec,omitempty"` // 0: go/constant holds a rational; else the precision of its big.Float
 	Str     string `json:"str,omitempty"`  // hex
 	Bool    bool   `json:"bool,omitempty"`
+	Re      *VNum  `json:"re,omitempty"` // complex
+	Im      *VNum  `json:"im,omitempty"`
 	// functions, types
 	Generic bool `json:"generic,omitempty"`
 	// interfaces
@@ -146,6 +203,9 @@ func paramView(v *types.Var) VParam {
 	if sl, ok := v.Type().(*types.Slice); ok {
 		p.IsSlice = true
 		p.Elem = types.TypeString(sl.Elem(), func(pkg *types.Package) string { return pkg.Name() })
+	}
+	if b, ok := v.Type().Underlying().(*types.Basic); ok && b.Kind() == types.String {
+		p.IsStr = true
 	}
 	p.unexportedType = namesUnexported(v.Type(), map[types.Type]bool{})
 	return p
@@ -258,6 +318,10 @@ func viewOf(p *types.Package, importPath string) *VPkg {
 					vo.CKind, vo.Bool = "bool", constant.BoolVal(o.Val())
 				default:
 					vo.CKind = "complex"
+					vo.Re, vo.Im = numView(constant.Real(o.Val())), numView(constant.Imag(o.Val()))
+					if vo.Re == nil || vo.Im == nil {
+						vo.CKind = "unknown" // cannot happen; rendered as something no binding matches
+					}
 				}
 			}
 		case *types.Func:
@@ -299,7 +363,7 @@ func paramsSexp(ps []VParam) string {
 		if p.IsSlice {
 			el = common.L(common.Q(p.Elem))
 		}
-		items[i] = common.L(common.Q(p.Name), common.Q(p.Typ), el, common.QL(p.Deps))
+		items[i] = common.L(common.Q(p.Name), common.Q(p.Typ), el, common.QL(p.Deps), common.B(p.IsStr))
 	}
 	return common.L(items...)
 }
@@ -319,8 +383,10 @@ func (o *VObj) sexp() string {
 				cv = common.L("str", common.Q(o.Str))
 			case "bool":
 				cv = common.L("bool", common.B(o.Bool))
+			case "complex":
+				cv = common.L("cplx", o.Re.sexp(), o.Im.sexp())
 			default:
-				cv = "(cplx)"
+				cv = "(unknown)"
 			}
 		}
 		k = common.L("const", common.B(o.Untyped), cv)
@@ -374,6 +440,11 @@ func contains(xs []string, s string) bool {
 // classesOf lists every divergence class (decidable predicate of the input) an object belongs to,
 // in a fixed order; the first one is the label used when the object diverges. Empty = inside the
 // domain of the theorems, where the implementation must agree with the reference.
+// (The classes of the findings repaired by 7677ad0, 2873e96, a2117ce, 87ef90c, eb1f965, 169d4db and
+// 246eb1c are gone: blank / W / clashing parameter names, String methods of other signatures,
+// constant-only packages, interface{ any }, constraint interfaces with methods, untyped complex
+// constants, import paths that are not identifiers, packages called os / log outside the standard
+// library all lie inside the domain now.)
 func (v *VPkg) classesOf(o *VObj, restricted []string) []string {
 	var cs []string
 	add := func(c string) {
@@ -384,28 +455,16 @@ func (v *VPkg) classesOf(o *VObj, restricted []string) []string {
 	if !o.Exported {
 		return nil
 	}
-	if contains(restricted, v.Name+o.Name) && v.ImportPath != v.Name {
-		add("restricted-name-foreign-package")
-	}
 	switch o.Kind {
 	case "const":
 		if o.Untyped && o.CKind == "float" && (!isPow2(o.Den) || o.Prec != 0) {
 			add("float-const-rounded")
 		}
-		if o.Untyped && o.CKind == "complex" {
-			add("untyped-complex-const")
+		if o.Untyped && o.CKind == "complex" && (o.Re.rounded() || o.Im.rounded()) {
+			add("float-const-rounded") // the parts of a complex constant are printed like float constants
 		}
 	case "iface":
-		if o.Generic {
-			return cs
-		}
-		if !o.MethodSet && len(o.Methods) > 0 {
-			add("constraint-iface-with-methods")
-		}
-		if o.MethodSet && len(o.Methods) == 0 && o.Embeds > 0 {
-			add("iface-embeds-only-empty")
-		}
-		if len(o.Methods) == 0 {
+		if o.Generic || !o.MethodSet {
 			return cs
 		}
 		for _, m := range o.Methods {
@@ -435,35 +494,17 @@ func (v *VPkg) classesOf(o *VObj, restricted []string) []string {
 					}
 				}
 			}
-			names := map[string]bool{"W": true}
-			for i, p := range m.Params {
-				if p.Name == "_" {
-					add("iface-method-blank-param")
-					continue
-				}
-				n := p.Name
-				if n == "" {
-					n = fmt.Sprintf("a%d", i)
-				}
-				if names[n] {
-					add("iface-method-param-name-clash")
-				}
-				names[n] = true
-			}
-			for _, p := range m.Results {
-				if p.Name != "" && p.Name != "_" && names[p.Name] {
-					add("iface-method-param-name-clash")
-				}
-			}
-			if m.Name == "String" && !(len(m.Params) == 0 && len(m.Results) == 1 && m.Results[0].Typ == "string") {
-				add("iface-string-method-signature")
-			}
 		}
 		for _, m := range o.Methods {
 			if !m.Exported {
 				add("iface-unexported-method")
 			}
 		}
+	}
+	// the package is called like a package the wrapper file imports for itself: every line that names
+	// reflect / constant / token (or the package) may be the one the compiler complains about
+	if fixedImportClash(v) {
+		add("package-named-like-wrapper-import")
 	}
 	return cs
 }
@@ -487,15 +528,60 @@ func refParam(p VParam, name string, variadic bool) WParam {
 	return WParam{Name: name, Typ: p.Typ}
 }
 
+// mangle: the wrapper type prefix must be an identifier whatever the import path is: letters and
+// digits are kept, every other character becomes `_`.
 func mangle(importPath string) string {
-	return strings.NewReplacer("/", "_", "-", "_", ".", "_", "~", "_").Replace("_" + importPath + "_")
+	return strings.Map(func(r rune) rune {
+		if unicode.IsLetter(r) || unicode.IsDigit(r) {
+			return r
+		}
+		return '_'
+	}, "_"+importPath+"_")
+}
+
+// refNames: the names of the parameters and results of a wrapper method. A name that can be kept is
+// kept; a parameter that has none, is blank or is called like the receiver gets a<i>, a result called
+// like the receiver r<i>, followed by as many `_` as it takes to differ from every other name of the method.
+func refNames(m VMethod) (pn, rn []string) {
+	taken := map[string]bool{"W": true}
+	for _, p := range m.Params {
+		taken[p.Name] = true
+	}
+	for _, p := range m.Results {
+		taken[p.Name] = true
+	}
+	invent := func(pre string, i int) string {
+		n := pre + fmt.Sprint(i)
+		for taken[n] {
+			n += "_"
+		}
+		taken[n] = true
+		return n
+	}
+	for i, p := range m.Params {
+		switch p.Name {
+		case "", "_", "W":
+			pn = append(pn, invent("a", i))
+		default:
+			pn = append(pn, p.Name)
+		}
+	}
+	for i, p := range m.Results {
+		if p.Name == "W" {
+			rn = append(rn, invent("r", i))
+		} else {
+			rn = append(rn, p.Name)
+		}
+	}
+	return pn, rn
 }
 
 // refFile says what the wrapper of the package must contain according to the property:
 // every exported, non-generic object that can be bound, under its own name; variables by address;
 // untyped constants as exact literals; for every exported interface a wrapper with exactly its
-// exported methods, parameters named (a<i> when unnamed), the last one `...T` and forwarded with
-// `...` iff the method is variadic, results preserved; imports = what the emitted text names.
+// exported methods, parameters named (refNames), the last one `...T` and forwarded with `...` iff the
+// method is variadic, results preserved, the nil guard on `String() string` only; imports = what the
+// emitted text names.
 func refFile(v *VPkg, provided []string) *File {
 	f := &File{Dest: v.Dest, SymKey: v.ImportPath + "/" + v.Name}
 	imps := []string{"reflect"}
@@ -524,7 +610,7 @@ func refFile(v *VPkg, provided []string) *File {
 				case "string":
 					e = Entry{Key: o.Name, Form: "lit", Tok: "STRING", Val: o.Str}
 				case "complex":
-					e = Entry{Key: o.Name, Form: "lit", Tok: "COMPLEX", Val: "exact"}
+					e = Entry{Key: o.Name, Form: "lit", Tok: "COMPLEX", Val: o.Re.exact() + ";" + o.Im.exact()}
 				}
 			}
 			if e.Form == "lit" {
@@ -558,12 +644,12 @@ func refFile(v *VPkg, provided []string) *File {
 				if !m.Exported {
 					continue
 				}
-				wm := WMethod{Name: m.Name, Ret: len(m.Results) > 0, Guard: m.Name == "String"}
+				// `return ""` is a statement of the method only for String() string
+				wm := WMethod{Name: m.Name, Ret: len(m.Results) > 0,
+					Guard: m.Name == "String" && len(m.Params) == 0 && len(m.Results) == 1 && m.Results[0].IsStr}
+				pn, rn := refNames(m)
 				for j, p := range m.Params {
-					n := p.Name
-					if n == "" {
-						n = fmt.Sprintf("a%d", j)
-					}
+					n := pn[j]
 					last := m.Variadic && j == len(m.Params)-1
 					wm.Params = append(wm.Params, refParam(p, n, last))
 					wm.Args = append(wm.Args, WArg{Name: n, Ellipsis: last})
@@ -573,8 +659,8 @@ func refFile(v *VPkg, provided []string) *File {
 						}
 					}
 				}
-				for _, p := range m.Results {
-					wm.Results = append(wm.Results, refParam(p, p.Name, false))
+				for j, p := range m.Results {
+					wm.Results = append(wm.Results, refParam(p, rn[j], false))
 					for _, d := range p.Deps {
 						if d != v.ImportPath && d != v.Path {
 							imps = append(imps, d)
